@@ -154,7 +154,14 @@ def run_sessions(shard, ctx):
                 calls.append(cmd)
                 if len(calls) in fail_at:
                     raise InjectedFault("device failure %d" % len(calls))
+                if cmd.datain is not None and len(cmd.datain) and c_fill[0]:
+                    # the device returns data unique to this command (short transfers leave the tail untouched)
+                    n_fill = max(1, (len(cmd.datain) * 3) // 4)
+                    tag = (b"CALL%06d." % len(calls)) * (n_fill // 11 + 1)
+                    cmd.datain[:n_fill] = tag[:n_fill]
 
+        c_fill = [False]
+        kept = []  # (returned command, its data-in content when it was returned)
         dev = Dev(getattr(E, setname))
         s = harness.make_facade(dev, 512)
         n = rng.randint(5, 40)
@@ -173,10 +180,20 @@ def run_sessions(shard, ctx):
             before = len(calls)
             hist.append(c.facade)
             wit = {"table": setname, "history": hist[-8:], "position": i, "method": c.facade, "args": a}
+            c_fill[0] = c.xfer == "read"  # block reads: no decoder runs on the data, any content is a valid response
+            if c.xfer == "read":
+                a["tl"] = rng.choice([1, 2, 2, 8, 8])
+            ret = None
             try:
-                harness.facade_call(c, s, DO.fresh(a) if c.custom else dict(a))
+                ret = harness.facade_call(c, s, DO.fresh(a) if c.custom else dict(a))
             except Exception:  # noqa: BLE001
                 pass
+            if ret is not None and c.xfer == "read":
+                if len(calls) > before and ret.datain is not None:
+                    fresh_tail = bytes(ret.datain[max(1, (len(ret.datain) * 3) // 4):])
+                    if any(fresh_tail):
+                        ctx.fail("C13:session.buffer_not_as_device_left_it", "%s: the part of the data-in buffer the device did not fill is not zero (data of an earlier command?)" % c.facade, wit)
+                kept.append((ret, bytes(ret.datain)))
             sent = len(calls) - before
             ctx.count("session_calls")
             if sent != 1:
@@ -192,6 +209,11 @@ def run_sessions(shard, ctx):
                 ctx.fail("C13:session.cdb.%s.%s" % (c.facade, mech), "call %d (%s) after %r: %s" % (i, c.facade, hist[-4:-1], msg), dict(wit, cdb=bytes(cmd.cdb)))
             if any(cmd is x for x in calls[:-1]):
                 ctx.fail("C13:session.command_object_reused", "the facade sent a command object it had sent before", wit)
+        if len({id(k[0].datain) for k in kept}) != len(kept):
+            ctx.fail("C13:session.commands_share_a_buffer", "two commands returned by one facade share one data-in buffer", {"table": setname, "history": hist[-8:]})
+        elif any(bytes(k.datain) != snap for k, snap in kept):
+            ctx.fail("C13:session.earlier_result_overwritten", "the data-in buffer of an earlier command changed during later facade calls", {"table": setname, "history": hist[-8:]})
+        ctx.count("session_buffers_checked", len(kept))
         ctx.case(("session", setname, tuple(hist), tuple(sorted(fail_at))), True, sample={"table": setname, "methods": hist[:10], "device_failures_at": sorted(fail_at)} if ctx.want_sample() else None)
         ctx.count("sessions")
 
